@@ -19,6 +19,7 @@ type c15Stream struct {
 	RelT    int  `json:"relt,omitempty"`
 	RelV    int  `json:"relv,omitempty"`
 	Unord   bool `json:"unord,omitempty"`
+	Closed  bool `json:"closed,omitempty"` // closed by the writer right after its last write
 }
 
 type c15Scn struct {
@@ -52,6 +53,26 @@ func genC15(rt *rapid.T) c15Scn {
 		}
 		size := genSize(rt, "wsize", mp, lim)
 		x.Sc.Acts = append(x.Sc.Acts, vfAct{AtMs: rapid.IntRange(0, 3).Draw(rt, "wat") * rapid.SampledFrom([]int{0, 1, 40, 400}).Draw(rt, "wgap"), Side: st.Side, Kind: "write", SID: st.SID, Size: size, PPI: 53})
+	}
+	sort.SliceStable(x.Sc.Acts, func(i, j int) bool { return x.Sc.Acts[i].AtMs < x.Sc.Acts[j].AtMs })
+	// some streams are closed by the writer right after (0 / 1 / 40 ms) their last write, i.e.
+	// usually with data still pending or in flight: the accounting has to carry on
+	for i := range x.Streams {
+		st := &x.Streams[i]
+		if rapid.IntRange(0, 2).Draw(rt, "close") != 0 {
+			continue
+		}
+		last := -1
+		for _, a := range x.Sc.Acts {
+			if a.Kind == "write" && a.Side == st.Side && a.SID == st.SID && a.AtMs > last {
+				last = a.AtMs
+			}
+		}
+		if last < 0 {
+			continue
+		}
+		st.Closed = true
+		x.Sc.Acts = append(x.Sc.Acts, vfAct{AtMs: last + rapid.SampledFrom([]int{0, 1, 40}).Draw(rt, "closegap"), Side: st.Side, Kind: "closestream", SID: st.SID})
 	}
 	sort.SliceStable(x.Sc.Acts, func(i, j int) bool { return x.Sc.Acts[i].AtMs < x.Sc.Acts[j].AtMs })
 	in := rapid.SampledFrom([]int{0, 15, 35}).Draw(rt, "intensity")
@@ -336,6 +357,12 @@ func runC15(t *testing.T, x c15Scn, verbose bool) vfCase {
 	for _, st := range x.Streams {
 		if st.Reenter >= 2 {
 			c.class("re-entrant-callback")
+			break
+		}
+	}
+	for _, st := range x.Streams {
+		if st.Closed {
+			c.class("stream-closed-with-data-outstanding")
 			break
 		}
 	}
